@@ -118,6 +118,10 @@ def oracle(name, o, f, agg="mean"):
             return oagg(agg, f) - oagg(agg, o)
         if name == "Ratio":
             d = oagg(agg, o)
+            if d != 0 and abs(d) < 1e-9:
+                return "skip"            # a denominator that is zero only up to rounding (interpolated quantiles): not decidable in floats
+            if d == 0 and agg in ("0.25", "0.9", "iqr"):
+                return "skip"            # an exact zero of the oracle's own evaluation of an INTERPOLATED quantile; numpy's lerp may give 4e-16
             return None if d == 0 else oagg(agg, f) / d
         if name == "Ef":
             return sum(1 for a, b in zip(o, f) if a < b) / n
@@ -247,6 +251,9 @@ def _explore(out, tier, seed, facts, replay):
             if len(e) == len(CLASSES) and any(float(x) <= 0 for x in dsc["obs"] + dsc["fcst"] if x != "nan"):
                 # rmsf on non-positive data with a non-propagating aggregator: outside the model (DESIGN.md 3.1)
                 bad = [b for b in bad if b[0] != "Rmsf"]
+            # rmsf = exp(sqrt(agg(log(f/o)^2))): when the aggregate is 0 up to rounding (e.g. -agg change of equal squares)
+            # sqrt sees +0 or -1e-17 depending on the last bit of log(); 1.0 against NaN is then a rounding matter
+            bad = [b for b in bad if not (b[0] == "Rmsf" and ((math.isnan(b[1]) and abs(b[2] - 1) < 1e-6) or (math.isnan(b[2]) and abs(b[1] - 1) < 1e-6)))]
             if bad or len(g) != len(e):
                 disagreements.append({"case": dsc, "differs": bad[:4]})
     except RuntimeError as ex:
